@@ -277,7 +277,7 @@ func init() {
 		BudgetQuick: 150 * time.Second,
 		BudgetThor:  25 * time.Minute,
 		Kind:        "schedules",
-		Rule: "all rule sets of 1..3 rules over {W: writes its local t then reads it back, R: reads t without assigning, RW: reads t before first write} in every salience order x all 21 engine models (x policy) x two consecutive calls on one engine; goroutine-spawning models under every schedule with <=2 (3) preemptions; plus two overlapping pool requests running the same rules with request-unique values; " +
+		Rule: "all rule sets of 1..3 rules over {W: writes its local t then reads it back, R: reads t without assigning, RW: reads t before first write} in every salience order x all 21 engine models (x policy) x two consecutive calls on one engine; goroutine-spawning models under every schedule with <=2 (thorough 3) deviations from the default scheduler (delay bounding); plus two overlapping pool requests running the same rules with request-unique values; " +
 			"oracle: R/RW never obtain a value (no result entry, error), every W returns and reads back its own value, updates of the shared injected object are all present",
 		Assume: []string{"strict saliences", "each rule updates its own field of the shared injected object (a concurrent read-modify-write of one host field is the host's business)"},
 		Run: func(c *hx.Ctx) {
@@ -290,7 +290,7 @@ func init() {
 					c.Res.Capped = append(c.Res.Capped, "time budget before all configurations")
 					break
 				}
-				hx.Explore("C15", c15Scenario(cfg), hx.ExploreCfg{Bound: envBound(bounds[i]), Prune: true, Deadline: c.Deadline}, c.Res)
+				hx.Explore("C15", c15Scenario(cfg), hx.ExploreCfg{Bound: envBound(delayBound(c, bounds[i])), Delay: true, Prune: true, Deadline: c.Deadline}, c.Res)
 			}
 		},
 		Rebuild: func(v *hx.Violation) *hx.Scenario {
